@@ -86,12 +86,17 @@ def lean_env():
     return env
 
 
-def _run_driver(lines):
+def _run_driver(lines, attempt=0):
     if not lines:
         return []
     p = subprocess.run(['lean', '--run', 'Driver.lean'], cwd=LEAN, env=lean_env(),
                        input='\n'.join(lines) + '\n', capture_output=True, text=True)
     out = [l for l in p.stdout.split('\n') if l.strip()]
+    if (p.returncode != 0 or len(out) != len(lines)) and attempt < 3 and 'does not exist' in (p.stderr + p.stdout):
+        # a concurrent `lake build` replaced object files under us: rebuild under the lock and retry
+        subprocess.run(['flock', os.path.join(LEAN, '.lake', 'verif.lock'), 'lake', 'build', 'Synphot.Driver.Main'],
+                       cwd=LEAN, capture_output=True, text=True)
+        return _run_driver(lines, attempt + 1)
     if p.returncode != 0 or len(out) != len(lines):
         raise RuntimeError('Lean driver failed (rc=%s, %d lines for %d cases): %s' % (
             p.returncode, len(out), len(lines), (p.stderr or p.stdout)[-2000:]))
